@@ -19,10 +19,56 @@ type vpC35Entry struct {
 	hash crypto.Hash
 }
 
+// The node keeps per-minute statistics about the positions it assigned (a
+// goroutine started with the counter). Positions must keep increasing across
+// such a tick. The pair of tests below brackets the other tests of this unit:
+// the first one starts a node and assigns two positions, the last one waits
+// until that node is older than one statistics period and assigns a third.
+var vpC35Tick struct {
+	e     *vpC16Env
+	start time.Time
+	last  uint64
+}
+
+func vpC35TickWrite(e *vpC16Env, tag string) (uint64, error) {
+	e.seq++
+	tx := e.net.BTCDeposit(common.NewInteger(1), 0, fmt.Sprintf("0xc35tick-%s-%d", tag, e.seq), e.seq)
+	e.clock += uint64(500 * time.Millisecond)
+	s := e.k.NextSnapshot(e.seq%7, []crypto.Hash{tx.PayloadHash()}, e.clock, false, 0)
+	e.k.Certify(s, 0)
+	fin, pan, err := e.finalize(s, []*common.VersionedTransaction{tx})
+	if pan != nil || err != nil || !fin {
+		return 0, fmt.Errorf("finalized=%v err=%v panic=%v", fin, err, pan)
+	}
+	back, err := e.k.Node.persistStore.ReadSnapshot(s.Hash)
+	if err != nil || back == nil {
+		return 0, fmt.Errorf("written snapshot unreadable: %v", err)
+	}
+	return back.TopologicalOrder, nil
+}
+
+func TestVP_C35_a_tick_begin(t *testing.T) {
+	if kit.Replaying() {
+		return
+	}
+	e := vpC16Start("c35tick")
+	vpC35Tick.e, vpC35Tick.start = e, time.Now()
+	for i := 0; i < 2; i++ {
+		pos, err := vpC35TickWrite(e, "before")
+		if err != nil {
+			t.Fatalf("write before the statistics tick: %v", err)
+		}
+		if pos <= vpC35Tick.last {
+			t.Fatalf("position %d assigned after %d", pos, vpC35Tick.last)
+		}
+		vpC35Tick.last = pos
+	}
+}
+
 func TestVP_C35_topo_write(t *testing.T) {
 	c := kit.New(t, "C35", "rapid: histories of 5..60 snapshots finalized through the real node (TopoWrite) over 7 chains with round transitions and batches (a fifth of the snapshots carry, alone or next to new ones, a transaction that another chain's snapshot finalized before), interleaved with cursor listings (offset in {0, existing, gap, last, last+1, 2^64-1}, count in {0,1,7,500,501}), by-hash lookups and node restarts (store reopened, counter rebuilt); oracle: model list of (position, hash) in assignment order: assigned positions strictly increase and never repeat (also across restarts), a listing equals the first count model entries at or after the offset in increasing order with each entry's own position and payload hash, count above 500 is refused, lookup by hash returns the model position; non-trivial = listing returning >=2 entries from a non-zero offset; distinct by (history length, offset, count)")
 	c.Assume("a certified snapshot never repeats a transaction its own chain already holds (honest signers refuse such a proposal; the store answers it with its 'snapshot duplication' assertion)")
-	c.Require("restart", "listing-nonzero-offset>=2", "count-501-refused", "offset-beyond-last", "batch", "lookup", "member-finalized-before")
+	c.Require("restart", "listing-nonzero-offset>=2", "count-501-refused", "offset-beyond-last", "batch", "lookup", "member-finalized-before", "listing-through-node")
 	kit.SetChecks(kit.N(60, 1500))
 	rapid.Check(t, func(t *rapid.T) {
 		e := vpC16Start("c35")
@@ -134,7 +180,16 @@ func TestVP_C35_topo_write(t *testing.T) {
 					offset = uint64(rapid.IntRange(0, int(last)+3).Draw(t, "offset_any"))
 				}
 				count := rapid.SampledFrom([]uint64{0, 1, 7, 500, 501, 3}).Draw(t, "count")
-				got, err := e.k.Node.persistStore.ReadSnapshotsSinceTopology(offset, count)
+				// through the node (what sync peers and the RPC handle call) or
+				// straight from the store: the same answer is expected
+				var got []*common.SnapshotWithTopologicalOrder
+				var err error
+				if rapid.Bool().Draw(t, "via_node") {
+					got, err = e.k.Node.ReadSnapshotsSinceTopology(offset, count)
+					c.Class("listing-through-node")
+				} else {
+					got, err = e.k.Node.persistStore.ReadSnapshotsSinceTopology(offset, count)
+				}
 				if count > 500 {
 					if err == nil {
 						t.Fatalf("listing with count %d accepted", count)
@@ -310,4 +365,32 @@ func TestVP_C35_concurrent_commit_order(t *testing.T) {
 			}
 		}
 	})
+}
+
+func TestVP_C35_z_tick_end(t *testing.T) {
+	if kit.Replaying() || vpC35Tick.e == nil {
+		return
+	}
+	c := kit.New(t, "C35", "deterministic: one node lives through a statistics period of its topology counter (61 s; the other tests of the unit run meanwhile): two positions assigned right after start, one after the period; oracle: the third position is above the second, the node's in-memory sequence equals it, and a listing from the second position returns both; non-trivial = the period was crossed; distinct by phase")
+	e := vpC35Tick.e
+	defer e.Close()
+	if wait := 61*time.Second - time.Since(vpC35Tick.start); wait > 0 {
+		time.Sleep(wait)
+	}
+	pos, err := vpC35TickWrite(e, "after")
+	if err != nil {
+		t.Fatalf("write after the statistics tick (node is %v old): %v", time.Since(vpC35Tick.start).Round(time.Second), err)
+	}
+	if pos <= vpC35Tick.last {
+		t.Fatalf("position %d assigned after the statistics tick, %d had been assigned before it", pos, vpC35Tick.last)
+	}
+	if seq := e.k.Node.TopologicalOrder(); seq != pos {
+		t.Fatalf("in-memory sequence %d after assigning position %d", seq, pos)
+	}
+	got, err := e.k.Node.ReadSnapshotsSinceTopology(vpC35Tick.last, 10)
+	if err != nil || len(got) != 2 || got[0].TopologicalOrder != vpC35Tick.last || got[1].TopologicalOrder != pos {
+		t.Fatalf("listing from %d across the tick: %v %v", vpC35Tick.last, got, err)
+	}
+	c.Case("tick-crossed", true, "stats-tick-crossed")
+	c.Case("tick-listing", true, "stats-tick-crossed")
 }
